@@ -206,6 +206,27 @@ def search(rec, ctx):
 
     drive(st.randoms(use_true_random=False), fmut, ctx.budget(8000, 150000), ctx.hseed("fmut"))
 
+    # ---- (c4) spellings and endings of small valid statements ---------------------------------------
+    # every word of every statement respelled with NFKC-compatibility characters (a keyword spelled that way is no
+    # keyword for CPython, an identifier is still the identifier); every statement ended in a dangling continuation
+    def fullwidth(word):
+        return "".join(chr(ord(ch) + 0xFEE0) if "!" <= ch <= "~" else ch for ch in word)
+
+    COMPAT = {"f": "ｆ", "i": "ｉ", "n": "ｎ", "s": "ſ", "a": "ª", "o": "º", "e": "ｅ", "t": "ｔ"}
+    for base in ctx.shard(SMALL_VALID + ["x = a if b else c\n", "if x: pass\n", "while x: pass\n", "x = a or b and not c\n", "x = a is not b\n", "try: pass\nfinally: pass\n", "None\n", "x = True\n"]):
+        toks = mutate.lex(base)
+        for i, t in enumerate(toks):
+            if re.fullmatch(r"[A-Za-z_]\w*", t):
+                for alt in {fullwidth(t), "".join(COMPAT.get(ch, ch) for ch in t[:1]) + t[1:], t[:-1] + fullwidth(t[-1])}:
+                    if alt != t:
+                        check(rec, {"src": "".join(toks[:i] + [alt] + toks[i + 1 :]), "stream": "compatibility-spelling", "near": True})
+        body = base.rstrip("\n")
+        for tail in ("\\\n", " \\\n", "\\", " \\", "\n\\\n", "\\\n\\\n", "; \\\n", "\n    \\\n", " \\\n\n"):
+            check(rec, {"src": body + tail, "stream": "dangling-continuation", "near": True})
+    for tail in ("\\\n", "\\", " \\\n", "\n\\\n"):
+        for pre in ("", "x", "(", "x =", "pass", "if x: pass", "x = 1;"):
+            check(rec, {"src": pre + tail, "stream": "dangling-continuation", "near": True, "mode_also": "eval"})
+
     # ---- (d) tab/space ambiguity (expected: finding D21) ------------------------------------------
     def tabs(rnd):
         body = rnd.choice(["a", "pass", "x = 1"])
